@@ -104,6 +104,7 @@ type scenario struct {
 	Named    bool
 	Caller   bool
 	Sev      slog.Level
+	FlagsHow int  // which public way sets the flags (vlib.SetFlagsVia)
 	How      int  // how the logger gets its format: 0 Set...Mode, 1 option of the package-level New, 2 option of New on a parent in another format, 3 With...Mode method
 	Thru     bool // WriteThru with an explicit timestamp, else LogAttrs
 	Msg      string
@@ -137,7 +138,7 @@ func run(t vlib.TB, test string, sc scenario, attrsForThru slog.Attrs) {
 	if sc.Caller {
 		flags |= slog.Lcaller
 	}
-	slog.SetFlags(flags)
+	vlib.SetFlagsVia(sc.FlagsHow, flags, slog.Lcaller|slog.Ldate|slog.LattrsR)
 	log := vlib.NewEventLog()
 	w := vlib.NewRec(log, 1, 0)
 	name := ""
@@ -242,6 +243,7 @@ func genScenario(t *rapid.T) (scenario, slog.Attrs) {
 	sc.Sev = rapid.SampledFrom(sevs).Filter(func(l slog.Level) bool { return l != slog.OffLevel }).Draw(t, "severity")
 	sc.Thru = rapid.Bool().Draw(t, "writeThru")
 	sc.How = rapid.SampledFrom([]int{0, 0, 1, 2, 3}).Draw(t, "howFormatIsSet")
+	sc.FlagsHow = rapid.SampledFrom([]int{0, 0, 1, 2, 3}).Draw(t, "flagsHow")
 	sc.Msg = vlib.GenMsg().Draw(t, "msg")
 	if sc.Sev == slog.AlwaysLevel && strings.Trim(sc.Msg, " \t\r\n") == "" {
 		sc.Msg += "x" // a blank Print is delivered as a bare newline (property C02), not as a record
